@@ -1447,4 +1447,75 @@ Section NewIsDefine.
           apply andb_true_iff in Hbad as [Hb _]. apply negb_true_iff in Hb. apply orb_false_iff in Hb as [Hb _].
           apply orb_false_iff in Hb as [Hb Hd]. apply orb_false_iff in Hb as [_ Hb]. rewrite Hb, Hd in Hkn. discriminate.
   Qed.
+
+  Hypothesis Hnames_valid : forallb valid_param_name names = true.
+  Hypothesis Hg_sig : forall b kb, find_klass g b = Some kb -> forallb valid_param_name (k_sig_req kb ++ k_sig_opt kb) = true.
+  Hypothesis Hbases_ok : bases_ok g extra (s_bases s) = true.
+
+  Lemma cheap_consts_inv mro ms an h h' acc : cheap mro ms an h -> consts_inv h h' acc -> cheap mro ms an h'.
+  Proof.
+    intros [M Hann Hget] [I1 _]. constructor.
+    - apply (mheap_transfer _ _ _ h); [| | |exact M].
+      + intros o a _ Ha. apply I1. left. exact Ha.
+      + intros o Hp. apply I1. right. intro; subst o. rewrite constsobj_plain in Hp. discriminate.
+      + intros x kx a Hk Hin. apply I1. right. intro; subst x. rewrite find_klass_kc in Hk.
+        destruct (pystr_eqb c constsobj) eqn:E; [apply pystr_eqb_spec in E; symmetry in E; exact (constsobj_not_c E)|congruence].
+    - rewrite I1; [exact Hann|left; reflexivity].
+    - intros n v Hg. rewrite I1; [apply Hget; exact Hg|]. right. intro E. symmetry in E. exact (constsobj_not_c E).
+  Qed.
+
+  Lemma sig_inputs bp : base_info gd g (s_bases s) [] false = Ok bp -> existsb bad_field_name names = false ->
+    sig_inputs_ok names bp = true.
+  Proof.
+    intros Hbp Hgood. destruct (base_info_spec gd g (s_bases s) [] false bp (NoDup_nil _) Hbp) as [B1 B2].
+    assert (Hbn : forall n, In n (map fst bp) -> valid_param_name n = true /\ n <> n_kwargs).
+    { intros n Hn. destruct (B2 n Hn) as [[]|[b [kb [Hb [Hk Hin]]]]].
+      pose proof (Hg_sig b kb Hk) as Hv. rewrite forallb_forall in Hv. split; [apply Hv; exact Hin|].
+      unfold bases_ok in Hbases_ok. apply andb_true_iff in Hbases_ok as [Hb1 _]. rewrite forallb_forall in Hb1.
+      specialize (Hb1 b Hb). unfold base_ok in Hb1. rewrite Hk in Hb1. apply andb_true_iff in Hb1 as [Hb1 _].
+      apply andb_true_iff in Hb1 as [_ Hb1]. apply negb_true_iff in Hb1. intro; subst n.
+      apply str_in_In in Hin. congruence. }
+    unfold sig_inputs_ok. rewrite (NoDup_has_dup_false _ Hnd), (NoDup_has_dup_false _ B1). cbn [negb andb].
+    apply andb_true_iff. split.
+    - rewrite forallb_app, Hnames_valid. cbn [andb]. apply forallb_forall. intros n Hn. apply (Hbn n Hn).
+    - apply negb_true_iff. apply str_in_false. intro Hin. apply in_app_or in Hin as [Hin|Hin].
+      + assert (Hb : bad_field_name n_kwargs = true) by reflexivity.
+        assert (existsb bad_field_name names = true) by (apply existsb_exists; exists n_kwargs; split; assumption). congruence.
+      + apply (Hbn _ Hin). reflexivity.
+  Qed.
+
+  Lemma new_sig own an h tail bp req consts :
+    cheap (c :: tail) own an h -> same_members own -> existsb bad_field_name names = false ->
+    base_info gd g (s_bases s) [] false = Ok bp -> Permutation req (own_required s own) ->
+    h c (s2p "_constants") = Some (ref constsobj) -> h constsobj n_dict_content = Some (PDict (skeys consts)) ->
+    match Define.make_signature names (own_required s own) bp (map fst consts) with
+    | Ok sg => exists rq, Permutation rq (sg_req sg) /\
+        StructMeta_new__set_sig so X h (v_params bp) (v_names (bases_required bp)) (ref c) (v_names req) (PBool addl_of) =
+        Ok (v_sig rq (sg_opt sg) addl_of)
+    | Raise x =>
+        StructMeta_new__set_sig so X h (v_params bp) (v_names (bases_required bp)) (ref c) (v_names req) (PBool addl_of) = Raise x
+    end.
+  Proof.
+    intros [M _ _] Hs Hgood Hbp Hperm Hcc Hcd. unfold StructMeta_new__set_sig. rewrite !getattr_ref.
+    rewrite (ae_cells _ _ _ _ (mh_env _ _ _ _ _ M) c (s2p "_fields")) by reflexivity.
+    assert (Ef : genv_heap gd (kc (c :: tail) own :: g) extra' c (s2p "_fields") = Some (v_names names)).
+    { unfold genv_heap. rewrite find_klass_kc, pystr_eqb_refl. unfold same_members in Hs. rewrite <- Hs. reflexivity. }
+    rewrite Ef, Hcc. cbn [bind]. rewrite deref_ref, Hcd, keys_skeys. cbn [bind].
+    pose proof (make_signature_src so X h names req addl_of bp (map fst consts) Hso (sig_inputs bp Hbp Hgood)) as G.
+    rewrite (make_signature_perm names req (own_required s own) bp (map fst consts) Hperm) in G.
+    unfold sig_agrees in G. destruct (Define.make_signature names (own_required s own) bp (map fst consts)) as [sg|x].
+    - destruct G as [rq [Hp Hr]]. exists rq. split; [exact Hp|]. rewrite Hr. reflexivity.
+    - rewrite G. reflexivity.
+  Qed.
+
+  Lemma new_field_by_name own an h tail :
+    cheap (c :: tail) own an h -> same_members own -> existsb bad_field_name names = false ->
+    StructMeta_new__set_field_by_name so X h (ref c) =
+    Ok (PDict (skeys (v_fields_of_mro (kc (c :: tail) own :: g) (c :: tail)))).
+  Proof.
+    intros [M _ _] Hs Hgood. unfold StructMeta_new__set_field_by_name.
+    pose proof (agree_env_view _ _ _ _ (mh_env _ _ _ _ _ M)) as Hev.
+    rewrite (get_all_fields_by_name_gen so X h gd (kc (c :: tail) own :: g) extra' c (kc (c :: tail) own) Hev);
+      [reflexivity| rewrite find_klass_kc, pystr_eqb_refl; reflexivity | apply (mro_plain_kc own tail Hs Hgood)].
+  Qed.
 End NewIsDefine.
